@@ -164,11 +164,22 @@ class Aligner:
             return out
         A, B = distinct(evA), distinct(evB)
         bid = set(e[0].get_id() for e in B)
+
+        def sig(e):
+            acc = {}
+            for a in e[2]:
+                vars_of(a, acc)
+            return frozenset(acc.keys())
+        bsig = {e[0].get_id(): sig(e) for e in B}
         for ea in A:
             if ea[0].get_id() in bid:
                 continue
             site = self.c.where.get(ea[0].get_id())
             cands = [eb for eb in B if eb[1] == ea[1] and (not by_site or self.c.where.get(eb[0].get_id()) == site)]
+            sa = sig(ea)
+            same = [eb for eb in cands if bsig[eb[0].get_id()] == sa]
+            if same:
+                cands = same          # candidates mentioning exactly the same variables first (and only, when there are any)
             ok = False
             save = self.use_defs
             self.use_defs = False
